@@ -221,7 +221,7 @@ func parseModel(out string, terms []string) map[string]string {
 
 // solveAll discharges the obligations in parallel; returns the scratch directory used.
 func solveAll(vcs []*VC, obls []*Obligation, vcOf map[*Obligation]*VC, tier string, scratch string) {
-	timeout := 10 * time.Second
+	timeout := 20 * time.Second
 	if tier == "thorough" {
 		timeout = 60 * time.Second
 	}
